@@ -165,12 +165,9 @@ def s(node, transformed, original):
     edges = ex.calls(".add_edge")
     ok = len(recs) >= 2 and len(edges) == len(recs) and all("out_edges(P0)" in show(e.args[0]) and show(e.args[2]) == "P2" for e in recs)
     ctx.check(ok, "S4", "_relabel recurses into every child clade and links it under this node", f.where(), "children are not all relabelled / linked", construct=f.qualname, stmt="recursion over out_edges")
-    c = prog.fn("consensus.clean_tree")
-    exc = extract(prog, c)
-    st = [e for e in exc.events if e.name == "store_sub"]
-    sorted_own = [e for e in st if show(e.args[2]).startswith("sorted(")]
-    ctx.check(len(sorted_own) >= 2, "S4", "clean_tree: idxs of a node are its own mutations, sorted", c.where(), "idxs are not the sorted own-mutation sets of the relabelled nodes", construct=c.qualname, stmt="idx_map[node] = sorted(data_points)")
-    ctx.analysed(f, c)
+    # clean_tree (idxs = sorted own mutations of the relabelled nodes, names from the data) is compared with its
+    # reference semantics by TS below: effects and returned graph, whatever the spelling of the loops
+    ctx.analysed(f)
 
 
 def rule_S5(ctx):
@@ -203,7 +200,7 @@ def s(data, graph):
 """, f, no_inline=["from_dict_nx"])
     same_events(ctx, "S5", "get_tree_from_consensus_graph: exactly the parentless nodes are attached under the virtual root", f, ex.calls("networkx.to_dict_of_dicts"), spg.calls("networkx.to_dict_of_dicts"), "graph handed to the tree builder")
     edges = ex.calls(".add_edge")
-    ok = len(edges) >= 2 and all("root_node_name" in show(e.args[0]) for e in edges) and all(any("predecessors" in show(g) for g in e.guards) for e in edges)
+    ok = len(edges) >= 2 and all("root_node_name" in show(e.args[0]) for e in edges) and all(any("predecessors" in show(g) or "in_degree" in show(g) for g in e.guards) for e in edges)
     ctx.check(ok, "S5", "get_tree_from_consensus_graph: every parentless node is attached under the virtual root", f.where(), "parentless nodes are not (all) attached to the virtual root", construct=f.qualname, stmt="graph.add_edge(root, node)")
     rets = [n for n in ast.walk(f.node) if isinstance(n, ast.Return)]
     upd = [c for c in calls(f.node, last="update")]
@@ -239,7 +236,7 @@ def rule_S6(ctx):
     node = adds[0].node
     ctx.check(injective and not lossy, "S6", "_relabel: the node key handed to transformed.add_node is an injective function of the clade", f.where(node),
               "nodes of the relabelled graph are keyed by the own-mutation set %s, obtained from the clade by removing its children's mutations; two clades with no own mutations (or equal remainders) collapse into one node, so majority clades are merged and the result is no longer the set of majority clades" % txt[:160],
-              construct=f.qualname, stmt=u(node))
+              construct=f.qualname, stmt="node key of the relabelled graph")
     ctx.analysed(f)
 
 
